@@ -300,7 +300,7 @@ def run_C12(run):
     stats = [run.build_trace("tr_C12", "Gen_C12")]
     trace_cov(run, stats)
     gens = [os.path.join(run.dir, "Gen_C12.v")] if stats[0] else []
-    run.prove(gens, [], ["C12/P_C12.v", "C12/P_C12_b.v", "C12/P_C12_c.v"], "C12/Properties_C12.v")
+    run.prove(gens, [], ["C12/P_C12.v", "C12/P_C12_b.v", "C12/P_C12_c.v", "C12/P_C12_d.v"], "C12/Properties_C12.v")
     fails = oracle_sweep(run, "C12", [("all", [])], run.tier)
     run.fails = run.triage(fails)
     run.assumptions = ["identities are over the exact real value of the traced float expressions (sqrt = real square root); 'within rounding' is exercised by the oracle only",
